@@ -207,6 +207,7 @@ var (
 	c04UnderscoreCols = []string{"_x", "_", "__y"}
 	c04ReservedCols   = []string{"measurement", "database", "_measurement", "_database", "m", "columns", "batch"}
 	c04SpaceCols      = []string{"a b", "a", "b c", "c"}
+	c04AliasCols      = []string{"a", "b", "a:i64,b", "a:str,b", "a:f64,b", "b:str,c"} // names whose "name:type" lists can serialise alike
 	c04OddCols        = []string{strings.Repeat("L", 300), "температура", "日本", "a\"b", "a,b", "a=b", "a/b", "..", "1"}
 	c04Measurements   = []string{"cpu", "mem"}
 	c04BadMeasurement = []string{"", "../etc", "a/b", "1cpu", "_m", "cp u", strings.Repeat("m", 200), "cpu\x01", "cé"}
@@ -218,7 +219,7 @@ var (
 func (g *c04Gen) colName(label string, lpSafe bool) string {
 	t := g.t
 	var pools [][]string
-	pools = append(pools, c04NormalCols, c04NormalCols, c04UnderscoreCols, c04ReservedCols, c04OddCols)
+	pools = append(pools, c04NormalCols, c04NormalCols, c04UnderscoreCols, c04ReservedCols, c04OddCols, c04AliasCols)
 	if verifkit.Excluded(kfC04SchemaCacheAlias) {
 		verifkit.CountExcluded(kfC04SchemaCacheAlias)
 	} else {
@@ -370,12 +371,22 @@ func (g *c04Gen) msgpackItem(db, m string, poison, lenMismatch bool) (mpMap, []c
 		cols = append(cols, mpPair{"pz", bad})
 	}
 	if lenMismatch {
-		// one column longer than the others: the decoder must reject the item
-		lm := make([]any, n+1)
-		for i := range lm {
-			lm[i] = int64(i)
+		// one column longer than the others - or an internal ('_') column SHORTER than
+		// the data columns (the time values above are not sorted, so a flush would
+		// permute every column): the decoder must reject the item
+		if n >= 2 && rapid.Bool().Draw(t, "shortUnderscore") {
+			lm := make([]any, rapid.IntRange(1, n-1).Draw(t, "shortLen"))
+			for i := range lm {
+				lm[i] = "src"
+			}
+			cols = append(cols, mpPair{"_lm", lm})
+		} else {
+			lm := make([]any, n+1)
+			for i := range lm {
+				lm[i] = int64(i)
+			}
+			cols = append(cols, mpPair{"lm", lm})
 		}
-		cols = append(cols, mpPair{"lm", lm})
 	}
 	sort.Strings(sig)
 	g.noteSchema(c04DBName(db), m, strings.Join(sig, ","))
@@ -2246,4 +2257,104 @@ func TestVerifKF_C04_parquet_import_footer_panic(t *testing.T) {
 		}
 	}
 	verifkit.KnownFinding(kfC04ParquetFooter, rep, what)
+}
+
+// c04ScenarioColumnar builds a known msgpack columnar request from explicit columns
+// (each value slice has one entry per timestamp).
+func c04ScenarioColumnar(m string, times []int64, cols []mpPair) *c04Req {
+	mc := mpMap{}
+	tv := make([]any, len(times))
+	rows := make([]c04Row, len(times))
+	for i, ts := range times {
+		tv[i] = ts
+		rows[i] = c04Row{DB: "default", M: m, Cells: map[string]string{"time": "t:" + strconv.FormatInt(ts, 10)}}
+	}
+	mc = append(mc, mpPair{"time", tv})
+	var names []string
+	for _, c := range cols {
+		vals := c.V.([]any)
+		for i := range rows {
+			if i < len(vals) && vals[i] != nil {
+				rows[i].Cells[c.K] = duck.Canon(vals[i])
+			}
+		}
+		mc = append(mc, c)
+		names = append(names, fmt.Sprintf("%q(%d)", c.K, len(vals)))
+	}
+	r := c04MsgpackReq("", c04Columnar(m, mc))
+	r.Known, r.Rows = true, rows
+	r.Desc = fmt.Sprintf("msgpack %s rows=%d columns=%s", m, len(times), strings.Join(names, ","))
+	return r
+}
+
+func c04RunScenarioSeq(t *testing.T, label string, key string, s *c04Seq) {
+	fail := c04RunSeq(s)
+	verifkit.Eval()
+	verifkit.Class("scenario:" + label)
+	verifkit.NonTrivial(label + "/" + key)
+	if fail != nil {
+		if fail.Class == "harness" {
+			t.Fatalf("C04 harness problem: %s", fail.Detail)
+		}
+		verifkit.WriteReplay("c04-sequence", s)
+		t.Fatalf("VERIF-FAIL class=C04/%s (scenario %s %s)\n  %s\nsequence=%v", fail.Class, label, key, fail.Detail, s.summary())
+	}
+}
+
+// TestVerifC04_SignatureAliasColumns: two accepted writes to one measurement inside
+// one buffer lifetime whose column sets differ but whose sorted "name:type" lists
+// serialise to the same string (column names containing ':' and ','), e.g.
+// {a:int, b:str} and {"a:i64,b":str}. Both layouts must be stored (or rejected);
+// the flush that merges them must not panic. Size-triggered (flush worker) and
+// admin-flush variants.
+func TestVerifC04_SignatureAliasColumns(t *testing.T) {
+	type layout struct{ cols []mpPair }
+	pairs := [][2]layout{
+		{{[]mpPair{{"a", []any{int64(1)}}, {"b", []any{"x"}}}}, {[]mpPair{{"a:i64,b", []any{"y"}}}}},
+		{{[]mpPair{{"a:i64,b", []any{"y"}}}}, {[]mpPair{{"a", []any{int64(2)}}, {"b", []any{"z"}}}}},
+		{{[]mpPair{{"a", []any{1.5}}, {"b", []any{true}}}}, {[]mpPair{{"a:f64,b", []any{false}}}}},
+		{{[]mpPair{{"a", []any{"s"}}, {"b", []any{"t"}}, {"c", []any{int64(3)}}}}, {[]mpPair{{"a:str,b", []any{"u"}}, {"c", []any{int64(4)}}}}},
+	}
+	for i, p := range pairs {
+		for _, maxBuf := range []int{2, 50} {
+			r1 := c04ScenarioColumnar("cpu", []int64{c04BaseMicros + int64(i)}, p[0].cols)
+			r2 := c04ScenarioColumnar("cpu", []int64{c04BaseMicros + 100 + int64(i)}, p[1].cols)
+			s := &c04Seq{Cfg: c04ServerCfg{MaxBufferSize: maxBuf, MaxBufferAgeMS: 3_600_000, FlushWorkers: 1, ShardCount: 1, MaxPayload: 256 << 10},
+				Reqs: []*c04Req{r1, r2, c04ScenarioWrite("mem", "int", 9)}}
+			c04RunScenarioSeq(t, "signature-alias-columns", fmt.Sprintf("%d/maxBuffer=%d", i, maxBuf), s)
+		}
+	}
+}
+
+// TestVerifC04_ShortInternalColumn: a columnar write whose '_'-prefixed column has
+// FEWER elements than the data columns and whose timestamps are not ascending,
+// flushed as the only batch of its buffer (size trigger -> flush worker, or the
+// admin flush). It is either rejected (today: 400 array length mismatch) or stored;
+// nothing may crash.
+func TestVerifC04_ShortInternalColumn(t *testing.T) {
+	for i, n := range []int{3, 5} {
+		for short := 1; short < n; short += 2 {
+			for _, maxBuf := range []int{n, 50} {
+				times := make([]int64, n)
+				vals := make([]any, n)
+				for k := 0; k < n; k++ {
+					times[k] = c04BaseMicros + int64((k*7+3)%n)*1000 + int64(i) // a non-identity permutation of ascending times
+					vals[k] = int64(k)
+				}
+				us := make([]any, short)
+				for k := range us {
+					us[k] = "agent-1"
+				}
+				r := c04ScenarioColumnar("cpu", times, []mpPair{{"v", vals}, {"_source", us}})
+				// if it is accepted, the rows must be there (the '_' column itself is the
+				// open finding C04-underscore-column-dropped, handled by the shared oracle)
+				for k := range r.Rows {
+					delete(r.Rows[k].Cells, "_source")
+				}
+				s := &c04Seq{Cfg: c04ServerCfg{MaxBufferSize: maxBuf, MaxBufferAgeMS: 3_600_000, FlushWorkers: 1, ShardCount: 1, MaxPayload: 256 << 10},
+					Reqs: []*c04Req{r, c04ScenarioWrite("mem", "float", 4)}}
+				c04RunScenarioSeq(t, "short-internal-column", fmt.Sprintf("n=%d/short=%d/maxBuffer=%d", n, short, maxBuf), s)
+			}
+		}
+	}
 }
